@@ -88,21 +88,21 @@ Qed.
 Print Assumptions C14_functionalize_fresh_and_pure.
 
 (* ================================================================= (e) analysis passes leave the model unchanged.
-   FULL STATEMENT (violated by call_onnx_api as written):
+   FULL STATEMENT (violated by call_onnx_api_before_fix as written):
      forall serialize func g, NoDup (g_inits g) ->
-       let g' := fst (call_onnx_api _ _ serialize func g) in
+       let g' := fst (call_onnx_api_before_fix _ _ serialize func g) in
        g_inputs g' = g_inputs g /\ g_inits g' = g_inits g /\ forall u, g_vals g' u = g_vals g u.
    Proved: the exact post-state, the partial theorem, three refuting witnesses, and the full statement for the
    repaired function of proposed_fixes/C14-call-onnx-api.diff. *)
 Theorem C14_api_post_state :
   forall (Proto R : Type) (serialize : gst -> res Proto) (func : Proto -> res R) g p,
   NoDup (g_inits g) -> serialize (strip g) = Ok p ->
-  let g' := fst (call_onnx_api Proto R serialize func g) in
+  let g' := fst (call_onnx_api_before_fix Proto R serialize func g) in
   g_inputs g' = g_inputs g
   /\ g_inits g' = filter (fun v => negb (stripped (g_vals g v))) (g_inits g)
                   ++ filter (fun v => stripped (g_vals g v)) (g_inits g)
   /\ (forall u, g_vals g' u = if pmem u (g_inits g) then fill (g_vals g u) else g_vals g u)
-  /\ snd (call_onnx_api Proto R serialize func g) = func p.
+  /\ snd (call_onnx_api_before_fix Proto R serialize func g) = func p.
 Proof. exact api_post. Qed.
 Print Assumptions C14_api_post_state.
 
@@ -110,7 +110,7 @@ Theorem C14_analysis_readonly_partial :
   forall (Proto R : Type) (serialize : gst -> res Proto) (func : Proto -> res R) g p,
   NoDup (g_inits g) -> serialize (strip g) = Ok p ->
   (forall v, In v (g_inits g) -> stripped (g_vals g v) = false /\ fill (g_vals g v) = g_vals g v) ->
-  let g' := fst (call_onnx_api Proto R serialize func g) in
+  let g' := fst (call_onnx_api_before_fix Proto R serialize func g) in
   g_inputs g' = g_inputs g /\ g_inits g' = g_inits g /\ forall u, g_vals g' u = g_vals g u.
 Proof. exact api_readonly_partial. Qed.
 Print Assumptions C14_analysis_readonly_partial.
@@ -118,8 +118,8 @@ Print Assumptions C14_analysis_readonly_partial.
 (* initializers i0 (600 floats), i1, i2 come back as i1, i2, i0 although everything succeeded *)
 Theorem C14_analysis_readonly_order_refuted :
   exists g, NoDup (g_inits g)
-    /\ is_ok (snd (call_onnx_api unit unit lazy_serialize (fun _ => Ok tt) g)) = true
-    /\ g_inits (fst (call_onnx_api unit unit lazy_serialize (fun _ => Ok tt) g)) <> g_inits g.
+    /\ is_ok (snd (call_onnx_api_before_fix unit unit lazy_serialize (fun _ => Ok tt) g)) = true
+    /\ g_inits (fst (call_onnx_api_before_fix unit unit lazy_serialize (fun _ => Ok tt) g)) <> g_inits g.
 Proof.
   exists w_order. destruct api_order_witness as [H1 [H2 H3]]. split; [exact H1|]. split; [exact H2|].
   unfold run_ok in H3. rewrite H3. simpl. intros H; discriminate.
@@ -128,8 +128,8 @@ Print Assumptions C14_analysis_readonly_order_refuted.
 
 (* an initializer without shape/dtype gets them filled in *)
 Theorem C14_analysis_readonly_shape_refuted :
-  exists g u, is_ok (snd (call_onnx_api unit unit lazy_serialize (fun _ => Ok tt) g)) = true
-    /\ value_obs (g_vals (fst (call_onnx_api unit unit lazy_serialize (fun _ => Ok tt) g)) u) <> value_obs (g_vals g u).
+  exists g u, is_ok (snd (call_onnx_api_before_fix unit unit lazy_serialize (fun _ => Ok tt) g)) = true
+    /\ value_obs (g_vals (fst (call_onnx_api_before_fix unit unit lazy_serialize (fun _ => Ok tt) g)) u) <> value_obs (g_vals g u).
 Proof.
   exists w_shape, 1%positive. destruct api_shape_witness as [H1 [H2 H3]]. split; [exact H1|].
   unfold run_ok in H3. rewrite H2, H3. intros H; discriminate.
@@ -139,9 +139,9 @@ Print Assumptions C14_analysis_readonly_shape_refuted.
 (* serialization raises (lazy tensor): initializers stay among the inputs, the big one is gone and has lost its tensor *)
 Theorem C14_analysis_readonly_serialization_refuted :
   exists g, NoDup (g_inits g)
-    /\ is_ok (snd (call_onnx_api unit unit lazy_serialize (fun _ => Ok tt) g)) = false
-    /\ g_inputs (fst (call_onnx_api unit unit lazy_serialize (fun _ => Ok tt) g)) <> g_inputs g
-    /\ g_inits (fst (call_onnx_api unit unit lazy_serialize (fun _ => Ok tt) g)) <> g_inits g.
+    /\ is_ok (snd (call_onnx_api_before_fix unit unit lazy_serialize (fun _ => Ok tt) g)) = false
+    /\ g_inputs (fst (call_onnx_api_before_fix unit unit lazy_serialize (fun _ => Ok tt) g)) <> g_inputs g
+    /\ g_inits (fst (call_onnx_api_before_fix unit unit lazy_serialize (fun _ => Ok tt) g)) <> g_inits g.
 Proof.
   exists w_serfail. destruct api_serfail_witness as [H1 [H2 [H3 _]]].
   split; [repeat constructor; simpl; intuition congruence|]. split; [exact H1|].
@@ -153,7 +153,7 @@ Print Assumptions C14_analysis_readonly_serialization_refuted.
 Theorem C14_analysis_readonly_fixed :
   forall (Proto R : Type) (serialize : gst -> res Proto) (func : Proto -> res R) g,
   NoDup (g_inits g) ->
-  let g' := fst (call_onnx_api_fixed Proto R serialize func g) in
+  let g' := fst (call_onnx_api Proto R serialize func g) in
   g_inputs g' = g_inputs g /\ g_inits g' = g_inits g /\ forall u, g_vals g' u = g_vals g u.
 Proof. exact api_fixed_readonly. Qed.
 Print Assumptions C14_analysis_readonly_fixed.
@@ -163,54 +163,54 @@ Print Assumptions C14_analysis_readonly_fixed.
 
 (* ClearMetadataAndDocStringPass — full statement refuted (node doc strings are cleared but not counted) *)
 Theorem C14_flag_sound_clear_partial :
-  forall m, Forall docless m -> snd (clear_pass m) = false -> fst (clear_pass m) = m.
+  forall m, Forall docless m -> snd (clear_pass_before_fix m) = false -> fst (clear_pass_before_fix m) = m.
 Proof. exact clear_flag_sound_partial. Qed.
 Print Assumptions C14_flag_sound_clear_partial.
 
-Theorem C14_flag_sound_clear_refuted : exists m, snd (clear_pass m) = false /\ fst (clear_pass m) <> m.
+Theorem C14_flag_sound_clear_refuted : exists m, snd (clear_pass_before_fix m) = false /\ fst (clear_pass_before_fix m) <> m.
 Proof. exists w_clear. exact clear_flag_refuted_witness. Qed.
 Print Assumptions C14_flag_sound_clear_refuted.
 
 Theorem C14_converges_clear :
-  forall m, snd (clear_pass (fst (clear_pass m))) = false
-            /\ fst (clear_pass (fst (clear_pass m))) = fst (clear_pass m).
+  forall m, snd (clear_pass_before_fix (fst (clear_pass_before_fix m))) = false
+            /\ fst (clear_pass_before_fix (fst (clear_pass_before_fix m))) = fst (clear_pass_before_fix m).
 Proof. exact clear_converges. Qed.
 Print Assumptions C14_converges_clear.
 
 (* RemoveUnusedNodesPass (flat graphs) — full statement refuted (trailing None inputs trimmed, not counted) *)
 Theorem C14_flag_sound_dce_partial :
-  forall g, Forall (fun n => trim (d_ins n) = d_ins n) (d_nodes g) -> snd (dce g) = false -> fst (dce g) = g.
+  forall g, Forall (fun n => trim (d_ins n) = d_ins n) (d_nodes g) -> snd (dce_before_fix g) = false -> fst (dce_before_fix g) = g.
 Proof. exact dce_flag_sound_partial. Qed.
 Print Assumptions C14_flag_sound_dce_partial.
 
-Theorem C14_flag_sound_dce_refuted : exists g, snd (dce g) = false /\ fst (dce g) <> g.
+Theorem C14_flag_sound_dce_refuted : exists g, snd (dce_before_fix g) = false /\ fst (dce_before_fix g) <> g.
 Proof. exists w_dce. exact dce_flag_refuted_witness. Qed.
 Print Assumptions C14_flag_sound_dce_refuted.
 
 (* measure = nodes + initializers; within size+1 rounds: reports False and changes nothing *)
 Theorem C14_converges_dce :
-  forall g, exists k, k <= dce_size g + 1 /\ snd (dce (iterE dgraph dce k g)) = false
-                      /\ fst (dce (iterE dgraph dce k g)) = iterE dgraph dce k g.
+  forall g, exists k, k <= dce_size g + 1 /\ snd (dce_before_fix (iterE dgraph dce_before_fix k g)) = false
+                      /\ fst (dce_before_fix (iterE dgraph dce_before_fix k g)) = iterE dgraph dce_before_fix k g.
 Proof. exact dce_converges. Qed.
 Print Assumptions C14_converges_dce.
 
 (* TopologicalSortPass over any length-preserving sort — full statement refuted (a reordered subgraph is not compared) *)
 Theorem C14_flag_sound_toposort_partial :
   forall sort, (forall l, length (sort l) = length l) ->
-  forall m, t_subs m = [] -> snd (topo_pass sort m) = false -> fst (topo_pass sort m) = m.
+  forall m, t_subs m = [] -> snd (topo_pass_before_fix sort m) = false -> fst (topo_pass_before_fix sort m) = m.
 Proof. exact topo_flag_sound_partial. Qed.
 Print Assumptions C14_flag_sound_toposort_partial.
 
 Theorem C14_flag_sound_toposort_refuted :
   exists sort m, (forall l, length (sort l) = length l) /\ (forall l, sort (sort l) = sort l)
-                 /\ snd (topo_pass sort m) = false /\ fst (topo_pass sort m) <> m.
+                 /\ snd (topo_pass_before_fix sort m) = false /\ fst (topo_pass_before_fix sort m) <> m.
 Proof. exists w_sort, w_topo. exact topo_flag_refuted_witness. Qed.
 Print Assumptions C14_flag_sound_toposort_refuted.
 
 Theorem C14_converges_toposort :
   forall sort, (forall l, sort (sort l) = sort l) ->
-  forall m, snd (topo_pass sort (fst (topo_pass sort m))) = false
-            /\ fst (topo_pass sort (fst (topo_pass sort m))) = fst (topo_pass sort m).
+  forall m, snd (topo_pass_before_fix sort (fst (topo_pass_before_fix sort m))) = false
+            /\ fst (topo_pass_before_fix sort (fst (topo_pass_before_fix sort m))) = fst (topo_pass_before_fix sort m).
 Proof. intros sort H m. apply topo_converges. exact H. Qed.
 Print Assumptions C14_converges_toposort.
 
@@ -236,9 +236,9 @@ Print Assumptions C14_converges_inits_inputs.
 (* ================================================================= the repaired flag computations
    (proposed_fixes/C14-*.diff; selected by the harness for a finding whose status is "fixed"): FULL statement *)
 Theorem C14_flag_sound_fixed :
-  (forall m, snd (clear_pass_fixed m) = false -> fst (clear_pass_fixed m) = m)
-  /\ (forall g, snd (dce_fixed g) = false -> fst (dce_fixed g) = g)
-  /\ (forall sort m, snd (topo_pass_fixed sort m) = false -> fst (topo_pass_fixed sort m) = m).
+  (forall m, snd (clear_pass m) = false -> fst (clear_pass m) = m)
+  /\ (forall g, snd (dce g) = false -> fst (dce g) = g)
+  /\ (forall sort m, snd (topo_pass sort m) = false -> fst (topo_pass sort m) = m).
 Proof. split; [exact clear_fixed_flag_sound | split; [exact dce_fixed_flag_sound | exact topo_fixed_flag_sound]]. Qed.
 Print Assumptions C14_flag_sound_fixed.
 
@@ -259,5 +259,5 @@ Example C14_example_dce_two_rounds :
                            {| d_id := 2; d_ins := [Some 10]; d_outs := [21] |};
                            {| d_id := 3; d_ins := [Some 10]; d_outs := [30] |} ]%positive;
               d_outputs := [30%positive]; d_inputs := [10%positive]; d_inits := [] |} in
-  snd (dce g) = true /\ snd (dce (fst (dce g))) = true /\ snd (dce (iterE dgraph dce 2 g)) = false.
+  snd (dce_before_fix g) = true /\ snd (dce_before_fix (fst (dce_before_fix g))) = true /\ snd (dce_before_fix (iterE dgraph dce_before_fix 2 g)) = false.
 Proof. vm_compute. repeat split; reflexivity. Qed.
